@@ -41,7 +41,18 @@ oracle (the property on the real code alone)
                       up BY NAME in the macro table and replaced by the macro's body)
   plain_parse_round_trips   C01 on the plain parse (`c == parse(gen(c))`, same meaning): precondition of legal_after_pass
                       (failed before the C01 repair for `map b r[0:t:0]`: the generator dropped a literal zero step)
+  no_subcircuit_left_after_subs_and_macros   after any sequence that holds both expand_subcircuits and expand_macros no
+                      subcircuit block survives in the REAL result objects: body, macro table, and `gate_def.body` of any
+                      remaining macro call (a call statement keeps pointing at the Macro object it was built with)
   only_jaqal_errors   a pass applied to a parser-made circuit (or to the result of earlier passes) raises nothing but JaqalError
+
+Streams: 75 % general programs (pass2_diff / pass1_diff generators); 25 % `subcall`: programs of pass1_diff's generator in
+which a macro whose body holds a subcircuit block is CALLED from the body, directly or through another macro (at top level,
+in a loop, in a sequential block), each run through a fixed battery — [subs, macros], [macros, subs], [subs, macros, macros],
+[subs, let, macros], [macros(preserve), subs] (all must agree and leave no subcircuit block) and every pair of distinct
+passes in both orders — besides the random sequence and the flags.  The completion that makes two orders comparable only
+adds passes the orders LACK (never expand_subcircuits, expand_macros only if absent), so a block or a call one order leaves
+behind is not papered over.
 
 Exit status 0 iff no disagreement and no oracle failure.
 """
@@ -159,7 +170,73 @@ def _p2_case(rng, idx, thorough):
             continue
 
 
+def _has_sub(s):
+    if isinstance(s, BlockStatement):
+        return s.subcircuit or any(_has_sub(x) for x in s.statements)
+    if isinstance(s, LoopStatement):
+        return _has_sub(s.statements)
+    return False
+
+
+def _calls(s, acc):
+    if isinstance(s, GateStatement):
+        if isinstance(s.gate_def, Macro):
+            acc.add(s.name)
+    elif isinstance(s, LoopStatement):
+        _calls(s.statements, acc)
+    else:
+        for x in s.statements:
+            _calls(x, acc)
+    return acc
+
+
+def subcall_kind(c):
+    """"direct": a macro whose body holds a subcircuit block is called from the body; "via": a macro calling such a macro
+    is called from the body; None otherwise"""
+    subm = {m.name for m in c.macros.values() if _has_sub(m.body)}
+    if not subm:
+        return None
+    top = _calls(c.body, set())
+    via = {m.name for m in c.macros.values() if _calls(m.body, set()) & subm}
+    if top & via:
+        return "via"
+    if top & subm:
+        return "direct"
+    return None
+
+
+SUBCALL_FALLBACK = {
+    "direct": "let k 2\nregister r[3]\nmacro A x { X x; subcircuit k { Y x; CX x r[0] } }\nA r[1]\nloop k { A r[2] }\n{ A r[1]; Z r[0] }\n",
+    "via": "let k 2\nregister r[3]\nmacro A x { X x; subcircuit k { Y x; CX x r[0] } }\nmacro B y { A y; loop 2 { A y } }\nB r[1]\nloop k { B r[2] }\n{ A r[1]; B r[2] }\n",
+}
+
+
+def _subcall_program(rng, idx, thorough, want):
+    """a program of pass1_diff's generator in which a macro holding a subcircuit is called from the body (`want` =
+    "direct") or through another macro (`want` = "via"); rejection sampling, a fixed program if nothing turns up"""
+    for _ in range(400):
+        base = P1.gen_case(rng, idx, thorough)
+        try:
+            c = parse(base["text"], base["mode"])
+        except Exception:  # noqa
+            continue
+        k = subcall_kind(c)
+        if k == want or (want == "direct" and k == "via"):
+            return base["text"], base["mode"]
+    return SUBCALL_FALLBACK[want], "gates"
+
+
 def gen_case(rng, idx, thorough):
+    if rng.random() < 0.25:
+        want = "via" if rng.random() < 0.4 else "direct"
+        text, mode = _subcall_program(rng, idx, thorough, want)
+        lets = declared_lets(text)
+        ov = gen_ov(rng, lets, 0.6)
+        passes = [gen_pass(rng, lets) for _ in range(rng.randrange(1, 5))]
+        multiset = [gen_pass(rng, lets, ov) for _ in range(rng.randrange(2, 5))]
+        return {"id": idx, "text": text, "mode": mode, "src": "subcall:" + want, "passes": passes, "ov": ov,
+                "multiset": multiset, "perm_seed": rng.randrange(1 << 30), "ov2": gen_ov(rng, lets, 1.0),
+                "flag_combos": (ALL_COMBOS if thorough else rng.sample(ALL_COMBOS, 4))}
     if rng.random() < 0.8:
         base = _p2_case(rng, idx, thorough)
         text, mode = base["text"], base["mode"]
@@ -254,13 +331,14 @@ def dump_outcome(c, e):
         return {"err": "Undumpable"}
 
 
-def completed_meaning(c, ov, spell):
-    """implementation meaning of c completed with the passes it may lack"""
+def completed_meaning(c, ov, spell, expand=True):
+    """implementation meaning of c completed with the passes it may LACK: fill_in_let(ov) always (a no-op on a let-free
+    circuit), expand_macros only when `expand` (the compared orders do not contain it), expand_subcircuits never (either
+    both compared orders contain it or neither does; re-applying it would mask a subcircuit block an order left behind)"""
     try:
-        if spell:
-            c = expand_subcircuits(c)
         c = fill_in_let(c, override_dict={n: v for n, v in ov})
-        c = expand_macros(c)
+        if expand:
+            c = expand_macros(c)
         return ("ok", json.dumps(P2.numeric(P2.norm(P2.impl_sem(c.body))), sort_keys=True))
     except Exception as e:  # noqa
         return ("error", err_class(e))
@@ -380,6 +458,7 @@ class Acc:
         self.oracle = {k: {"cases": 0, "failures": []} for k in
                        ("commute_meaning", "commute_pairwise", "idempotent", "flags_equal_passes", "legal_after_pass",
                         "no_illegal_nesting_after_pass", "no_parameter_capture_after_pass", "plain_parse_round_trips",
+                        "no_subcircuit_left_after_subs_and_macros",
                         "commute_subs_macros_when_a_macro_is_named_prepare_all", "only_jaqal_errors")}
         self.dist = Counter()
         self.samples = []
@@ -425,31 +504,117 @@ def oracle_commute(acc, case, c, baked):
             a, b = byk[kinds[i]], byk[kinds[j]]
             pairs.append(("commute_pairwise", [a, b], [b, a]))
     for name, o1, o2 in pairs:
-        sub = slim(case, ov=ov, order1=o1, order2=o2)
-        if not (map_side_condition(o1, ov, baked) and map_side_condition(o2, ov, baked)):
-            # keep the case with the overrides restricted to the lets fill_in_map does not bake in
-            ov_r = [[n, v] for n, v in ov if n not in baked]
-            o1 = [["let", ov_r] if p[0] == "let" else p for p in o1]
-            o2 = [["let", ov_r] if p[0] == "let" else p for p in o2]
-            sub = slim(case, ov=ov_r, order1=o1, order2=o2)
-            acc.dist[f"{name}:overrides restricted by the fill_in_map side condition"] += 1
-            ov_use = ov_r
-        else:
-            ov_use = ov
-        r1, e1 = apply_all(o1, c)
-        r2, e2 = apply_all(o2, c)
-        if e1 is not None or e2 is not None:
-            acc.dist[f"{name}:not both applicable"] += 1
-            if e1 is not None and e2 is not None:
-                acc.dist[f"{name}:neither applicable"] += 1
+        compare_orders(acc, name, case, c, o1, o2, ov, baked)
+
+
+def compare_orders(acc, name, case, c, o1, o2, ov, baked):
+    """two orders of the same passes from the same circuit: both applicable => same implementation meaning"""
+    sub = slim(case, ov=ov, order1=o1, order2=o2)
+    if not (map_side_condition(o1, ov, baked) and map_side_condition(o2, ov, baked)):
+        # keep the case with the overrides restricted to the lets fill_in_map does not bake in
+        ov_r = [[n, v] for n, v in ov if n not in baked]
+        o1 = [["let", ov_r] if p[0] == "let" else p for p in o1]
+        o2 = [["let", ov_r] if p[0] == "let" else p for p in o2]
+        sub = slim(case, ov=ov_r, order1=o1, order2=o2)
+        acc.dist[f"{name}:overrides restricted by the fill_in_map side condition"] += 1
+        ov_use = ov_r
+    else:
+        ov_use = ov
+    r1, e1 = apply_all(o1, c)
+    r2, e2 = apply_all(o2, c)
+    if e1 is not None or e2 is not None:
+        acc.dist[f"{name}:not both applicable"] += 1
+        if e1 is not None and e2 is not None:
+            acc.dist[f"{name}:neither applicable"] += 1
+        return
+    spell = any(p[0] == "subs" for p in o1)
+    expand = not any(p[0] == "macros" for p in o1)
+    if spell and not expand:
+        for o, r in ((o1, r1), (o2, r2)):
+            check_no_subcircuit_left(acc, case, o, r)
+    m1 = completed_meaning(r1, ov_use, spell, expand)
+    m2 = completed_meaning(r2, ov_use, spell, expand)
+    acc.dist[f"{name}:compared:{m1[0]}"] += 1
+    if name == "commute_pairwise":
+        acc.dist["pair:" + "+".join(sorted(p[0] for p in o1))] += 1
+    acc.check(name, m1 == m2, sub, f"order1 -> {m1!r}"[:700] + f"  order2 -> {m2!r}"[:700])
+
+
+def subcircuit_left(c):
+    """where a subcircuit block survives in the REAL objects: the body — including the body of the definition object any
+    macro call that remains THERE points to (`gate.gate_def`, which need not be the table's object of that name) — and
+    the bodies of the macro table.  (Calls inside the table's bodies are not followed: expand_subcircuits rebuilds the
+    Macro objects but leaves every call statement pointing at the object it was built with, so there a stale, unexpanded
+    definition is reachable on the clean tree too; expand_macros looks macros up by name and never sees it.)"""
+    seen = set()
+
+    def st(s, where, follow=True):
+        if isinstance(s, GateStatement):
+            gd = s.gate_def
+            if follow and isinstance(gd, Macro) and id(gd) not in seen:
+                seen.add(id(gd))
+                return st(gd.body, where + f" -> gate_def of the call {s.name}")
+            return None
+        if isinstance(s, LoopStatement):
+            return st(s.statements, where, follow)
+        if s.subcircuit:
+            return where
+        for x in s.statements:
+            w = st(x, where, follow)
+            if w:
+                return w
+        return None
+
+    w = st(c.body, "body")
+    if w:
+        return w
+    for m in c.macros.values():
+        w = st(m.body, f"macro {m.name}", False)
+        if w:
+            return w
+    return None
+
+
+def check_no_subcircuit_left(acc, case, order, result):
+    w = subcircuit_left(result)
+    acc.check("no_subcircuit_left_after_subs_and_macros", w is None, slim(case, prefix=order),
+              f"a subcircuit block survives in: {w}")
+
+
+BATTERY = [[["subs"], ["macros", False]], [["macros", False], ["subs"]], [["subs"], ["macros", False], ["macros", False]],
+           [["subs"], ["let", None], ["macros", False]], [["macros", True], ["subs"]]]
+
+
+def oracle_battery(acc, case, c, baked):
+    """the fixed battery of the `subcall` stream: short sequences around expand_subcircuits / expand_macros, and every
+    ordered pair of distinct passes (both orders compared)"""
+    ov = case["ov"]
+    base = None
+    for seq in BATTERY:
+        seq = [["let", ov] if p[0] == "let" else p for p in seq]
+        r, e = apply_all(seq, c)
+        acc.dist["battery:" + "+".join(p[0] for p in seq) + ":" + ("ok" if e is None else e)] += 1
+        if e is not None:
+            acc.check("only_jaqal_errors", e == "JaqalError", slim(case, prefix=seq), f"raises {e}")
             continue
-        spell = any(p[0] == "subs" for p in o1)
-        m1 = completed_meaning(r1, ov_use, spell)
-        m2 = completed_meaning(r2, ov_use, spell)
-        acc.dist[f"{name}:compared:{m1[0]}"] += 1
-        if name == "commute_pairwise":
-            acc.dist["pair:" + "+".join(sorted(p[0] for p in o1))] += 1
-        acc.check(name, m1 == m2, sub, f"order1 -> {m1!r}"[:700] + f"  order2 -> {m2!r}"[:700])
+        check_no_subcircuit_left(acc, case, seq, r)
+        if not map_side_condition(seq, ov, baked):
+            continue
+        # all five sequences fully expand: under the overrides (if any let pass is among them: the same ones) they agree
+        m = completed_meaning(r, ov, True, False)
+        if m[0] == "error":
+            # fill_in_let(ov) of the completion is not applicable (e.g. to a body of the PRESERVED macro table)
+            acc.dist["battery:completion not applicable:" + m[1]] += 1
+            continue
+        if base is None:
+            base = (seq, m)
+        else:
+            acc.check("commute_meaning", m == base[1], slim(case, ov=ov, order1=base[0], order2=seq),
+                      f"order1 -> {base[1]!r}"[:700] + f"  order2 -> {m!r}"[:700])
+    kinds = [["let", ov], ["macros", False], ["subs"], ["map"]]
+    for i in range(len(kinds)):
+        for j in range(i + 1, len(kinds)):
+            compare_orders(acc, "commute_pairwise", case, c, [kinds[i], kinds[j]], [kinds[j], kinds[i]], ov, baked)
 
 
 def oracle_bounding_name(acc, case):
@@ -470,7 +635,7 @@ def oracle_bounding_name(acc, case):
         acc.dist["bounding name:refused"] += 1
         acc.check(name, e1 in (None, "JaqalError") and e2 in (None, "JaqalError"), sub, f"S;M raises {e1}, M;S raises {e2}")
         return
-    m1, m2 = completed_meaning(r1, [], True), completed_meaning(r2, [], True)
+    m1, m2 = completed_meaning(r1, [], True, False), completed_meaning(r2, [], True, False)
     acc.check(name, m1 == m2, sub, f"S;M -> {m1!r}"[:600] + f"  M;S -> {m2!r}"[:600])
 
 
@@ -614,6 +779,9 @@ def process(acc, case, with_driver):
         acc.oracle["only_jaqal_errors"]["cases"] += 1
         oracle_idempotent(acc, case, p, cur, nxt)
         oracle_legal(acc, case, case["passes"][: i + 1], nxt)
+        kinds_so_far = {q[0] for q in case["passes"][: i + 1]}
+        if "subs" in kinds_so_far and "macros" in kinds_so_far:
+            check_no_subcircuit_left(acc, case, case["passes"][: i + 1], nxt)
         cur = nxt
     acc.dist[f"sequence length {len(case['passes'])}"] += 1
     acc.dist[f"steps applied {sum(1 for s in steps if 'ok' in s)}"] += 1
@@ -624,7 +792,12 @@ def process(acc, case, with_driver):
         acc.reqs.append({"op": "apply_seq", "circuit": d0, "passes": pj})
         acc.expect.append(("apply_seq", slim(case, passes=case["passes"]), steps[-1]))
     # --- commutation
-    oracle_commute(acc, case, c, baked_lets(c))
+    baked = baked_lets(c)
+    oracle_commute(acc, case, c, baked)
+    if str(case.get("src", "")).startswith("subcall"):
+        acc.dist["stream:" + case["src"]] += 1
+        acc.dist["stream:subcall kind found:" + str(subcall_kind(c))] += 1
+        oracle_battery(acc, case, c, baked)
     if mode == "nogates" and "macro M0 " in text and "subcircuit" in text:
         oracle_bounding_name(acc, case)
     feat = (tuple(p[0] for p in case["passes"]), text)
@@ -702,7 +875,8 @@ def replay(case: dict, driver: str = DEFAULT_DRIVER) -> dict:
             r2, e2 = apply_all(case["order2"], c)
             if e1 is None and e2 is None:
                 spell = any(p[0] == "subs" for p in case["order1"])
-                m1, m2 = completed_meaning(r1, ov, spell), completed_meaning(r2, ov, spell)
+                expand = not any(p[0] == "macros" for p in case["order1"])
+                m1, m2 = completed_meaning(r1, ov, spell, expand), completed_meaning(r2, ov, spell, expand)
                 acc.check("commute_meaning", m1 == m2, case, f"{m1!r} vs {m2!r}"[:1500])
             else:
                 detail = f"not both applicable: {e1}, {e2}"
@@ -720,6 +894,9 @@ def replay(case: dict, driver: str = DEFAULT_DRIVER) -> dict:
                 full = dict(case, ov2=case.get("ov2", []))
                 oracle_idempotent(acc, full, p, cur, nxt)
                 oracle_legal(acc, case, passes[: i + 1], nxt)
+                ks = {q[0] for q in passes[: i + 1]}
+                if "subs" in ks and "macros" in ks:
+                    check_no_subcircuit_left(acc, case, passes[: i + 1], nxt)
                 cur = nxt
             impl = {"steps": steps}
             model = canon_model(run_driver(driver, [{"op": "apply_seq", "circuit": d0, "passes": [pass_json(p) for p in passes],
